@@ -9,6 +9,7 @@ import (
 	"github.com/nspcc-dev/neo-go/pkg/core/transaction"
 	"github.com/nspcc-dev/neo-go/pkg/io"
 	"github.com/nspcc-dev/neo-go/pkg/network"
+	"github.com/nspcc-dev/neo-go/pkg/network/payload"
 	"github.com/nspcc-dev/neo-go/pkg/util"
 
 	"verif/harness/internal/hx"
@@ -204,17 +205,17 @@ func buildCorpus(thorough bool) []corpusCase {
 	add(func(rn *runner, k int) {
 		c := codecByName["message0"]
 		r := prng.New(77)
-		for pad := 0; pad < 16; pad++ {
-			t := simpleTx()
-			t.Script = cat(make([]byte, pad), r.Bytes(2100), bytes.Repeat([]byte{0xab}, 64))
-			ab, err := c.altEnc(network.NewMessage(network.CMDTX, t))
+		for pad := 0; pad < 4; pad++ {
+			// an MPT data reply (state sync): hash-like bytes first, something compressible at the end
+			d := &payload.MPTData{Nodes: [][]byte{r.Bytes(2100 + 16*pad), bytes.Repeat([]byte{0xab}, 64)}}
+			ab, err := c.altEnc(network.NewMessage(network.CMDMPTData, d))
 			if err != nil {
 				rn.o.Fail("message-encode-fails", k, "%v", err)
 				return
 			}
 			rep := rn.bytesCase(k, c, ab)
 			if !strings.HasPrefix(rep.obs, "ok rest=0 ") {
-				rn.o.Fail("message-lz4-roundtrip", k, "the node's own compressed framing of a valid transaction (script: %d x 00, 2100 random bytes, 64 x ab) is rejected by Message.Decode: %s", pad, rep.obs)
+				rn.o.Fail("message-lz4-roundtrip", k, "the node's own compressed framing of a valid MPTData payload (nodes: %d random bytes, 64 x ab) is rejected by Message.Decode: %s", 2100+16*pad, rep.obs)
 				rn.o.Count("corpus:lz4-rejected")
 			} else {
 				rn.o.Count("corpus:lz4-accepted")
